@@ -58,6 +58,58 @@ def gen_req(rng, nodes, tok):
     mime = rng.choice(["text/gemini", "text/plain", "image/png"])
     return path, size, mime, token, content, extra
 
+def protocol_level_cases(res, tier):
+    """the same uploads through GeminiServerProtocol (with and without a middleware chain in front of the real
+    FileUploadHandler): the body split over reads, and bytes beyond the declared size arriving with the end of the body, in
+    the next slice of the same read, or in a later read - the stored file must be exactly the declared bytes"""
+    import asyncio, serverdrv as sd
+    from nauyaca.server.protocol import GeminiServerProtocol
+    from nauyaca.server.handler import FileUploadHandler
+    from nauyaca.server.middleware import MiddlewareChain, RateLimiter, RateLimitConfig
+    from nauyaca.protocol.response import GeminiResponse
+    body = b"declared body: exactly these bytes\n"
+    trail = b"<<< bytes beyond the declared size >>>"
+    line = ("titan://h/notes/up.txt;size=%d;mime=text/plain\r\n" % len(body)).encode()
+    feeds = [("one read", [[line + body]]),
+             ("trailing with the body", [[line + body + trail]]),
+             ("trailing in the next slice", [[line + body, trail]]),
+             ("trailing in a later read", [[line + body], [trail]]),
+             ("body split, trailing later", [[line + body[:7]], [body[7:]], [trail]]),
+             ("line split, trailing slices", [[line[:9], line[9:] + body, trail, trail]])]
+    tmp = scratch_dir("nv-c14p-")
+    async def one(with_chain, reads, updir):
+        chain = MiddlewareChain([RateLimiter(RateLimitConfig(capacity=100, refill_rate=10.0))]) if with_chain else None
+        acts = []
+        p = GeminiServerProtocol(lambda r: GeminiResponse(20, "text/plain", "x"), chain, FileUploadHandler(updir))
+        t = sd.FakeTransport(acts, ("192.0.2.1", 5), None)
+        p.connection_made(t)
+        for slices in reads:
+            for sl in slices:
+                p.data_received(sl)
+            await asyncio.sleep(0)
+        for _ in range(30):
+            await asyncio.sleep(0)
+            if t.closed: break
+        if p.timeout_handle: p.timeout_handle.cancel()
+        return b"".join(a[1] for a in acts if a[0] == "w"), t.closed
+    try:
+        for with_chain in (False, True):
+            for label, reads in feeds:
+                updir = os.path.join(tmp, "u%d-%d" % (with_chain, res.evaluations)); os.makedirs(updir)
+                wire, closed = asyncio.run(one(with_chain, reads, updir))
+                stored = {}
+                for d_, _dirs, files_ in os.walk(updir):
+                    for f_ in files_:
+                        stored[os.path.relpath(os.path.join(d_, f_), updir)] = open(os.path.join(d_, f_), "rb").read()
+                res.evaluations += 1; res.count("through-the-protocol"); res.nontriv(("protocol", with_chain, label))
+                if not wire.startswith(b"20 ") or stored != {"notes/up.txt": body}:
+                    res.violations.append({"clause": "the stored content is exactly the declared number of bytes that followed the request line (through the protocol)",
+                                           "signature": "C14:protocol-content",
+                                           "case": {"middleware_chain": with_chain, "delivery": label},
+                                           "trace": {"response": wire[:40].decode("latin-1"), "stored": {k: v[:90].decode("latin-1") for k, v in stored.items()}}})
+    finally:
+        shutil.rmtree(tmp, ignore_errors=True)
+
 def run(tier, seed):
     setup_impl()
     import nauyaca.server.handler as hm
@@ -208,4 +260,6 @@ def run(tier, seed):
                                    "trace": {"status": me[4], "changes": str(changed)[:600]}})
     if meta:
         res.sample({"request": meta[0][9][:200], "response": meta[0][4]}); res.sample({"request": meta[-1][9][:200], "response": meta[-1][4]})
+    protocol_level_cases(res, tier)
+    res.rule += " | plus through GeminiServerProtocol (with / without a rate-limiter chain): body split over reads, bytes beyond the declared size with the body, in the next slice, in a later read"
     return res
